@@ -112,3 +112,19 @@ func (t *TransactionManager) Rollback(ctx context.Context, trans *Transaction) e
 
 	return err
 }
+
+// rollbackExpired is called when the rollback timer of the given transaction fired. The transaction might have been
+// confirmed or cancelled in the meantime (the timer fires while that request holds the lock), in which case it
+// is no longer the registered transaction and must not be rolled back.
+func (t *TransactionManager) rollbackExpired(ctx context.Context, trans *Transaction) error {
+	t.tmMutex.Lock()
+	defer t.tmMutex.Unlock()
+	if t.transaction != trans {
+		return nil
+	}
+	_, err := t.rollbacker.TransactionRollback(ctx, trans.GetRollbackTransaction(), false)
+
+	t.transaction = nil
+
+	return err
+}
